@@ -1,5 +1,6 @@
 """Running line-oriented drivers with crash attribution."""
 import os
+import re
 import resource
 import signal
 import subprocess
@@ -50,10 +51,15 @@ class Crash:
         return "exit(%s)" % self.rc
 
 
+def is_repo_path(path):
+    """a source path of the repository under test (build trees refer to it through relative paths)"""
+    return not path.startswith("/usr/") and re.search(r"/(smt|riddle|core|solver|executor)/[^/]*\.(cpp|h)$|/(smt|solver)/[a-z_/]+/[^/]*\.(cpp|h)$|/main\.cpp$", path) is not None
+
+
 def _top_repo_frame(err):
     import re
-    for m in re.finditer(r"#\d+ 0x[0-9a-f]+ in (.+?) (/[^\s:]+):\d+", err):
-        if "/repo/" in m.group(2) or "/oratio-scratch" in m.group(2):
+    for m in re.finditer(r"#\d+ 0x[0-9a-f]+ in (.+?) ([^\s:()]+):\d+", err):
+        if is_repo_path(m.group(2)):
             fn = re.sub(r"\(.*", "", m.group(1))
             return " in " + fn
     return ""
